@@ -64,7 +64,8 @@ Hist genHistory(vf::Ctx & c, int W, const Precision & pr, bool exactSamples, boo
     }
   }
   // constant, ramp, noisy, alternating, large mean + small spread, magnitude swing (large values, then small ones)
-  size_t pattern = c.s.pick("pattern", {1, 2, 3, 2, 2, 3});
+  // ... and small integers (many exact ties between the entering and the leaving sample)
+  size_t pattern = c.s.pick("pattern", {1, 2, 3, 2, 2, 3, 2});
   double scaleMax = 1e8 * pr.p;
   double scale = c.s.rlog("scale", std::min(10.0 * pr.p, scaleMax), scaleMax);
   uint64_t seed = c.s.seed("sample_seed");
@@ -73,6 +74,7 @@ Hist genHistory(vf::Ctx & c, int W, const Precision & pr, bool exactSamples, boo
   vf::Rng rng2(seed ^ 0x9e3779b97f4a7c15ULL);   // separate stream: the main stream must stay what older tapes produced
   const int swingBlock = W * (1 + static_cast<int>(rng2.below(3))) + static_cast<int>(rng2.below(3));
   if (pattern == 5) {c.label("magnitude-swing");}
+  if (pattern == 6) {c.label("few-distinct-values(ties-with-leaving-sample)");}
   for (int k = 0; k < total; ++k) {
     double v = 0;
     switch (pattern) {
@@ -81,6 +83,7 @@ Hist genHistory(vf::Ctx & c, int W, const Precision & pr, bool exactSamples, boo
       case 2: v = rng.uniform(-scale, scale); break;
       case 3: v = ((k & 1) ? -1.0 : 1.0) * rng.uniform(0.5 * scale, scale); break;
       case 4: v = 0.999 * scale + rng.uniform(-10, 10) * pr.p; break;
+      case 6: v = static_cast<double>(rng.range(-3, 3)) * pr.p * 4; break;   // 7 distinct values only: ties with the leaving sample
       default: {
           // blocks of 1..3 windows alternating between the top of the magnitude range and a few precisions: what
           // is left in the running sums after the large values have left the window must not pollute the small ones
@@ -120,9 +123,13 @@ void averageHistory(vf::Ctx & c)
   if (exact) {c.label("dyadic-exact");}
   if (frac) {c.label("dyadic-fractional(truncation-direction)");}
   Hist h = genHistory(c, W, pr, exact, frac);
+  // value semantics: at one point of the history the object is replaced by a copy of itself (the copy constructor is
+  // hand written in this class); -1 = never
+  const int copyAt = c.s.flag("continue_on_a_copy", 1, 3) ? static_cast<int>(c.s.i("copy_before_update", 0, std::max<int>(0, static_cast<int>(h.values.size()) - 1))) : -1;
+  if (copyAt >= 0 && !h.values.empty()) {c.label("continued-on-a-copy");}
   c.commit();
 
-  OnlineAverage avg(pr.p, static_cast<size_t>(W));
+  std::unique_ptr<OnlineAverage> avgHolder(new OnlineAverage(pr.p, static_cast<size_t>(W)));
   const double mLo = std::max(1.0, std::floor(1.0 / pr.p) - 1.0);
   const double truncBound = 1.0 / mLo;
   size_t pos = 0;
@@ -130,21 +137,25 @@ void averageHistory(vf::Ctx & c)
     std::deque<double> win;
     int n = 0;
     if (s > 0) {
-      avg.reset();
-      VF_CHECK(c, !avg.isAvailable(), "segment %zu: isAvailable() is true right after reset()", s);
+      avgHolder->reset();
+      VF_CHECK(c, !avgHolder->isAvailable(), "segment %zu: isAvailable() is true right after reset()", s);
     }
     for (int k = 0; k < h.segLen[s]; ++k) {
+      if (static_cast<int>(pos) == copyAt) {
+        std::unique_ptr<OnlineAverage> copy(new OnlineAverage(*avgHolder));
+        avgHolder = std::move(copy);
+      }
       double v = h.values[pos++];
-      avg.update(v);
+      avgHolder->update(v);
       ++n;
       win.push_back(exact ? std::trunc(v / pr.p) * pr.p : v);   // exact class: the truncated sample itself
       if (static_cast<int>(win.size()) > W) {win.pop_front();}
-      bool avail = avg.isAvailable();
+      bool avail = avgHolder->isAvailable();
       VF_CHECK(c, avail == (n >= W), "segment %zu update %d (W=%d): isAvailable()=%d but %d samples arrived since the last reset", s, n, W, avail, n);
       LD sum = 0;
       for (double x : win) {sum += x;}
       LD mean = sum / static_cast<LD>(win.size());
-      double got = avg.getAverage();
+      double got = avgHolder->getAverage();
       VF_CHECK(c, std::isfinite(got), "segment %zu update %d: average not finite", s, n);
       double err = std::fabs(static_cast<double>(got - mean));
       c.maxStat("average-error/precision", err / pr.p);
@@ -171,9 +182,11 @@ void varianceHistory(vf::Ctx & c)
   if (exact) {c.label("dyadic-exact");}
   if (frac) {c.label("dyadic-fractional(truncation-direction)");}
   Hist h = genHistory(c, W, pr, exact, frac);
+  const int copyAt = c.s.flag("continue_on_a_copy", 1, 3) ? static_cast<int>(c.s.i("copy_before_update", 0, std::max<int>(0, static_cast<int>(h.values.size()) - 1))) : -1;
+  if (copyAt >= 0 && !h.values.empty()) {c.label("continued-on-a-copy");}
   c.commit();
 
-  OnlineVariance var(pr.p, static_cast<size_t>(W));
+  std::unique_ptr<OnlineVariance> varHolder(new OnlineVariance(pr.p, static_cast<size_t>(W)));
   const double mLo = std::max(1.0, std::floor(1.0 / pr.p) - 1.0);
   const double d = 1.0 / mLo;
   size_t pos = 0;
@@ -181,16 +194,20 @@ void varianceHistory(vf::Ctx & c)
     std::deque<double> win;
     int n = 0;
     if (s > 0) {
-      var.reset();
-      VF_CHECK(c, !var.isAvailable(), "segment %zu: isAvailable() is true right after reset()", s);
+      varHolder->reset();
+      VF_CHECK(c, !varHolder->isAvailable(), "segment %zu: isAvailable() is true right after reset()", s);
     }
     for (int k = 0; k < h.segLen[s]; ++k) {
+      if (static_cast<int>(pos) == copyAt) {
+        std::unique_ptr<OnlineVariance> copy(new OnlineVariance(*varHolder));
+        varHolder = std::move(copy);
+      }
       double v = h.values[pos++];
-      var.update(v);
+      varHolder->update(v);
       ++n;
       win.push_back(exact ? std::trunc(v / pr.p) * pr.p : v);
       if (static_cast<int>(win.size()) > W) {win.pop_front();}
-      VF_CHECK(c, var.isAvailable() == (n >= W), "segment %zu update %d (W=%d): isAvailable()=%d", s, n, W, var.isAvailable());
+      VF_CHECK(c, varHolder->isAvailable() == (n >= W), "segment %zu update %d (W=%d): isAvailable()=%d", s, n, W, varHolder->isAvailable());
       if (n < W) {continue;}
       // exact statistics of the window (long double is enough: |v|/p <= 1e8, W <= 64)
       LD sum = 0, sumsq = 0;
@@ -199,7 +216,7 @@ void varianceHistory(vf::Ctx & c)
       LD ss = 0;
       for (double x : win) {ss += (x - mean) * (x - mean);}
       LD refVar = ss / (W - 1);
-      double got = var.getVariance();
+      double got = varHolder->getVariance();
       VF_CHECK(c, std::isfinite(got), "segment %zu update %d: variance not finite", s, n);
       // rounding of (sumsq/m^2 - n*avg^2)/(W-1): two large nearly equal numbers
       double roundTol = 64 * 2.220446049250313e-16 * static_cast<double>((sumsq + W * mean * mean) / (W - 1));
@@ -214,7 +231,7 @@ void varianceHistory(vf::Ctx & c)
       VF_CHECK(c, err <= tol, "segment %zu update %d (W=%d, p=%.9g%s): variance %.17g, unbiased sample variance of the last W samples is %.17Lg (|diff| %.3g > tol %.3g)",
         s, n, W, pr.p, exact ? ", exact samples" : "", got, refVar, err, tol);
       // the average reported by the variance object follows the same window
-      double ga = var.getAverage();
+      double ga = varHolder->getAverage();
       double atol = exact ? 1e-12 * std::max(std::fabs(static_cast<double>(mean)), pr.p) : d * (1 + 1e-7) + 1e-12 * std::fabs(static_cast<double>(mean));
       VF_CHECK(c, std::fabs(static_cast<double>(ga - mean)) <= atol, "segment %zu update %d: OnlineVariance average %.17g vs window mean %.17Lg", s, n, ga, mean);
     }
@@ -225,18 +242,24 @@ void ringHistory(vf::Ctx & c)
 {
   int cap = static_cast<int>(c.s.i("capacity", 1, 16));
   int nops = static_cast<int>(c.s.len("n_ops", 1, 80));
-  std::vector<int> ops;  // 0 append, 1 clear
-  int appendsSinceClear = 0;
-  bool over = false, clearThenAppend = false, cleared = false;
+  std::vector<int> ops;  // 0 append, 1 clear, 2 append a reference to an item that is in the ring (aliasing)
+  std::vector<int> aliasIdx;
+  int appendsSinceClear = 0, held = 0;
+  bool over = false, clearThenAppend = false, cleared = false, aliased = false;
   for (int k = 0; k < nops; ++k) {
-    int op = static_cast<int>(c.s.pick("op", {12, 1}));
+    int op = static_cast<int>(c.s.pick("op", {12, 1, 2}));
+    if (op == 2 && held == 0) {op = 0;}
+    aliasIdx.push_back(op == 2 ? static_cast<int>(c.s.i("alias_index", 0, held - 1)) : 0);
+    if (op == 2) {aliased = true;}
+    if (op != 1) {held = std::min(cap, held + 1);} else {held = 0;}
     ops.push_back(op);
-    if (op == 0) {
+    if (op != 1) {
       appendsSinceClear++;
       if (appendsSinceClear > cap) {over = true;}
       if (cleared) {clearThenAppend = true;}
     } else {appendsSinceClear = 0; cleared = true;}
   }
+  if (aliased) {c.label("append-of-an-item-read-from-the-ring(aliasing)");}
   bool pow2 = (cap & (cap - 1)) == 0;
   if (!pow2) {c.label("non-pow2");}
   if (clearThenAppend) {c.label("clear-then-append");}
@@ -254,6 +277,12 @@ void ringHistory(vf::Ctx & c)
       ++id;
       ring.append(Eigen::Vector2d(id, -2.0 * id));
       model.push_front(id);
+      if (static_cast<int>(model.size()) > cap) {model.pop_back();}
+    } else if (op == 2) {
+      // the argument is a reference into the ring itself: the appended item must be the value it had at the call
+      int which = model[static_cast<size_t>(aliasIdx[static_cast<size_t>(step)])];
+      ring.append(ring[static_cast<size_t>(aliasIdx[static_cast<size_t>(step)])]);
+      model.push_front(which);
       if (static_cast<int>(model.size()) > cap) {model.pop_back();}
     } else {
       ring.clear();
